@@ -386,6 +386,10 @@ func cmdCheck(args []string) int {
 	}
 	fmt.Printf("RESULT property=%s tier=%s harnesses=%d violations=%d known=%d inconclusive=%d witnesses_validated=%d wall=%.1fs\n",
 		prop, *tier, len(reports), violTotal, len(knownLines), inconTotal, validated, time.Since(start).Seconds())
+	if exit == 0 && inconTotal > 0 {
+		// undecided obligations, an exhausted budget or an unreproduced counterexample: neither held nor violated
+		return 2
+	}
 	return exit
 }
 
